@@ -145,11 +145,37 @@ def run(ctx, crate):
                     return ("call", ds[0][0])
                 return ("local", l)
             return None
-        o_decl = [s for s in cnt if origin(s) == ("call", cl.bb)]
-        o_sorted = [s for s in cnt if s not in o_decl]
+        def origin_of_local(l):
+            seen = set()
+            while l not in seen:
+                seen.add(l)
+                ds = [x for x in d.defs.get(l, []) if x[2] == []]
+                if len(ds) == 1 and ds[0][3] == "rv" and ds[0][4]["k"] == "use" and ds[0][4]["o"]["k"] in ("copy", "move") and not ds[0][4]["o"]["p"]["pr"]:
+                    l = ds[0][4]["o"]["p"]["l"]
+                    continue
+                if len(ds) == 1 and ds[0][3] == "rv" and ds[0][4]["k"] == "ref" and all(e == "deref" for e in ds[0][4]["p"]["pr"]):
+                    l = ds[0][4]["p"]["l"]
+                    continue
+                if len(ds) == 1 and ds[0][3] == "call" and (d.callee(ds[0][4]) or {}).get("path") in ("std::ops::DerefMut::deref_mut", "std::ops::Deref::deref"):
+                    a0 = ds[0][4]["args"][0]
+                    if a0["k"] in ("copy", "move"):
+                        l = a0["p"]["l"]
+                        continue
+                if len(ds) == 1 and ds[0][3] == "call":
+                    return ("call", ds[0][0])
+                return ("local", l)
+            return None
+        # which of the two lists (the original or its clone) is sorted in place: the other one is the declared order
+        so_arg = so.term["args"][0]
+        sorted_origin = origin_of_local(so_arg["p"]["l"]) if so_arg["k"] in ("copy", "move") else None
+        o_sorted = [s for s in cnt if origin(s) == sorted_origin]
+        o_decl = [s for s in cnt if s not in o_sorted]
+        clone_origin = ("call", cl.bb)
+        if not (len(o_decl) == 1 and len(o_sorted) == 1 and clone_origin in (origin(o_decl[0]), origin(o_sorted[0])) and origin(o_decl[0]) != origin(o_sorted[0])):
+            o_decl, o_sorted = [], []
         after_sort = all(d.dominates(so.bb, s.bb) for s in o_sorted) and len(o_sorted) == 1 and len(o_decl) == 1
-        obs.append(Ob("R10.report", fn, "declared order = clone taken before the in-place sort of the same list", same_list and order_ok and after_sort,
-                      expected="unordered = sizes.clone(); sizes.sort(); compare counter(unordered) with counter(sizes)",
+        obs.append(Ob("R10.report", fn, "declared order = the list (or its clone) that is not sorted; the clone is taken before the in-place sort", same_list and order_ok and after_sort,
+                      expected="copy = sizes.clone(); exactly one of the two is sorted afterwards; compare counter(unsorted) with counter(sorted)",
                       found="same_list=%s clone_before_sort=%s sorted_list_counted_after_sort=%s" % (same_list, order_ok, after_sort)))
         # the comparison
         cmp_ok = False
